@@ -129,6 +129,16 @@ CHECKS = {
             "Process-death crash model; SQLite's atomic commit/journal recovery trusted; device id 1 and numeric recipient ids "
             "as used by all callers.",
             "5/C13"),
+    "C14": ("exploration",
+            "model-based generated histories (logins, lost/refused/confirmed uploads, key-count notifications, restarts, "
+            "consuming peers) over a real client stack against the server double; key-lifecycle model as oracle",
+            "An account started from nothing with small key batches goes through generated histories; every upload stanza on "
+            "the wire is parsed and checked (identity, registration id, 3-byte ids, 32-byte keys, signed-prekey signature verified "
+            "with Curve), and the prekey table is read through a separate SQLite connection: pending exactly while unconfirmed, "
+            "offered keys resolvable until consumed, consumed keys gone, a re-offered consumed key answered with a retry.",
+            "Server double as key directory; the by-design exception on a refused upload is not a finding; id re-use after "
+            "consumption is not flagged.",
+            "5/C14"),
     "C15": ("exploration",
             "enumerated lengths/tamper positions + Hypothesis-generated inputs; round trip, tamper rejection and two-way "
             "differential against an independent HKDF/AES-CBC/HMAC implementation",
